@@ -35,6 +35,9 @@ pub struct Scn {
     /// archive `base + offset`; it is removed again before the following roll
     #[serde(default)]
     pub obstacles: Vec<(usize, u32)>,
+    /// before these rolls (0-based) the whole archive directory is removed from outside
+    #[serde(default)]
+    pub purges: Vec<usize>,
     pub sched_seed: u64,
 }
 
@@ -48,7 +51,12 @@ pub fn generate(rng: &mut Rng, tier: Tier) -> Scn {
             (0..k).map(|_| super::f::gen_len(rng).min(3000)).collect()
         })
         .collect();
-    Scn { roller, pre_archives, bystanders, rolls, faults: vec![], obstacles: vec![], sched_seed: rng.next_u64() }
+    let mut purges = vec![];
+    if rng.chance(1, 8) && !matches!(roller, RollerSpec::Fixed { pat: PatKind::SecondMount | PatKind::DirSplit, .. }) {
+        let n: usize = n.max(1);
+        purges.push(rng.below(n as u64) as usize);
+    }
+    Scn { roller, pre_archives, bystanders, rolls, faults: vec![], obstacles: vec![], purges, sched_seed: rng.next_u64() }
 }
 
 /// Rolls over a tree in which a real obstruction makes one rotation step fail
@@ -80,7 +88,7 @@ pub fn execute(scn: &Scn, opts: &ExecOpts) -> Outcome {
     let scratch = Scratch::new("r0");
     let root2 = if matches!(scn.roller, RollerSpec::Fixed { pat: PatKind::SecondMount | PatKind::DirSplit, .. }) {
         fsutil::second_mount_base().map(|b| {
-            let p = b.join("r0");
+            let p = b.join(scratch.root.file_name().unwrap());
             let _ = fs::remove_dir_all(&p);
             fs::create_dir_all(&p).unwrap();
             p
@@ -120,6 +128,7 @@ pub fn execute(scn: &Scn, opts: &ExecOpts) -> Outcome {
     let k = common::begin(RunCfg { sched, trace: opts.trace, start_ns: common::T0_NS, tz: None, faults: scn.faults.clone(), crash: None, rand_script: vec![], step_cap: 20_000 });
     let rolls = scn.rolls.clone();
     let obstacles = scn.obstacles.clone();
+    let purges = scn.purges.clone();
     let roller_spec = scn.roller.clone();
     let names2 = names.clone();
     let sink2 = sink.clone();
@@ -144,6 +153,12 @@ pub fn execute(scn: &Scn, opts: &ExecOpts) -> Outcome {
             }
             fs::write(&names2.active, &bytes).unwrap();
             model.active = bytes;
+            if purges.contains(&ri) {
+                let _ = fs::remove_dir_all(names2.root.join("arch"));
+                model.purge_archives();
+                kernel::note("purge", "");
+                sink2.probe("archive_directory_purged", 1);
+            }
             // real obstructions
             let mut obstructed = false;
             if let RollerSpec::Fixed { base, .. } = &roller_spec {
@@ -221,18 +236,33 @@ pub fn execute(scn: &Scn, opts: &ExecOpts) -> Outcome {
                         sink2.fail("C07", "C07-I1", "rolled-file-lost-by-failed-roll", format!("roll {} failed ({:#}) and the file being rolled is gone", ri + 1, e));
                         return;
                     }
-                    model.resync(&names2);
-                    match roller.roll(&names2.active) {
-                        Ok(()) => {
-                            r::wait_for_bg_rotation();
-                            model.on_roll();
-                            if !model.check(&names2, &sink2, AT, false, &format!("after retrying roll {}", ri + 1)) {
-                                return;
+                    // retried until it succeeds; a retry may fail again only if another fault was injected into it
+                    let mut attempts = 0;
+                    loop {
+                        model.resync(&names2);
+                        let fired = kernel::current().map(|k| k.faults_fired_count()).unwrap_or(0);
+                        match roller.roll(&names2.active) {
+                            Ok(()) => {
+                                r::wait_for_bg_rotation();
+                                model.on_roll();
+                                if !model.check(&names2, &sink2, AT, false, &format!("after retrying roll {}", ri + 1)) {
+                                    return;
+                                }
+                                break;
                             }
-                        }
-                        Err(e2) => {
-                            sink2.fail("C07", "C07-E0", "retry-failed", format!("retrying roll {} failed although the fault is gone: {:#}", ri + 1, e2));
-                            return;
+                            Err(e2) => {
+                                let again = kernel::current().map(|k| k.faults_fired_count() > fired).unwrap_or(false);
+                                attempts += 1;
+                                if !again || attempts > 4 {
+                                    sink2.fail("C07", "C07-E0", "retry-failed", format!("retrying roll {} failed although the fault is gone: {:#}", ri + 1, e2));
+                                    return;
+                                }
+                                sink2.probe("retries_failed_by_a_second_injection", 1);
+                                if !names2.active.exists() {
+                                    sink2.fail("C07", "C07-I1", "rolled-file-lost-by-failed-roll", format!("the retry of roll {} failed ({:#}) and the file being rolled is gone", ri + 1, e2));
+                                    return;
+                                }
+                            }
                         }
                     }
                 }
@@ -277,7 +307,7 @@ pub fn execute(scn: &Scn, opts: &ExecOpts) -> Outcome {
 }
 
 pub fn size(s: &Scn) -> usize {
-    s.rolls.iter().map(|r| 1 + r.len()).sum::<usize>() + s.pre_archives.len() + s.bystanders.len() + s.obstacles.len()
+    s.rolls.iter().map(|r| 1 + r.len()).sum::<usize>() + s.pre_archives.len() + s.bystanders.len() + s.obstacles.len() + s.purges.len()
 }
 
 pub fn shrink(s: &Scn) -> Vec<Scn> {
@@ -325,6 +355,23 @@ pub fn fault_variants(scn: &Scn, hits: &[(String, u32)]) -> Vec<Scn> {
         if r::FAULT_SITES.contains(&site.as_str()) && site != "rf.open" {
             let mut c = scn.clone();
             c.faults = vec![kernel::FaultSpec { site: site.clone(), nth: *nth, errno: errnos[k % errnos.len()] }];
+            out.push(c);
+        }
+    }
+    // two failures in one history: the retry of the failed step fails again, or a later step does
+    let f: Vec<&(String, u32)> = hits.iter().filter(|(s, _)| r::FAULT_SITES.contains(&s.as_str()) && s != "rf.open").collect();
+    if !f.is_empty() {
+        let mut rng = Rng::new(scn.sched_seed ^ 0xD0B1E);
+        for k in 0..f.len().min(3) {
+            let i = rng.below(f.len() as u64) as usize;
+            let (s1, n1) = f[i];
+            let j = i + rng.below((f.len() - i) as u64) as usize;
+            let (s2, n2) = if j == i || rng.chance(1, 2) { (s1.clone(), *n1 + 1) } else { (f[j].0.clone(), f[j].1) };
+            let mut c = scn.clone();
+            c.faults = vec![
+                kernel::FaultSpec { site: s1.clone(), nth: *n1, errno: errnos[k % errnos.len()] },
+                kernel::FaultSpec { site: s2, nth: n2, errno: errnos[(k + 1) % errnos.len()] },
+            ];
             out.push(c);
         }
     }
